@@ -51,7 +51,7 @@ def main(tier, replay, t0):
             opt = x["opt"]
             if g.get("result") != "ok":
                 continue
-            base = {"wgsl": c.wgsl, "options": opt}
+            base = {"case_id": c.id, "wgsl": c.wgsl, "options": opt}
             mv = opt.get("mv", "rust")
             if g.get("proj_types_sha"):
                 projs_all.setdefault(g["proj_types_sha"], []).append(x["id"])
@@ -116,7 +116,7 @@ def main(tier, replay, t0):
             viol.append(Violation("option-changes-other-parts", "any",
                                   "outputs of one shader differ beyond derive lists, layout "
                                   "assertions and field types: option sets %s vs %s" % (
-                                      groups[0][:3], groups[-1][:3]), {"wgsl": c.wgsl}))
+                                      groups[0][:3], groups[-1][:3]), {"case_id": c.id, "wgsl": c.wgsl}))
         elif projs_all:
             proj_compared += 1
         for mv, d in projs_by_mv.items():
@@ -125,7 +125,7 @@ def main(tier, replay, t0):
                 viol.append(Violation("derive-switch-changes-other-parts", mv,
                                       "with representation %s, derive switches change more than "
                                       "derive lists and assertions: %s vs %s" % (
-                                          mv, groups[0][:3], groups[-1][:3]), {"wgsl": c.wgsl}))
+                                          mv, groups[0][:3], groups[-1][:3]), {"case_id": c.id, "wgsl": c.wgsl}))
     inconclusive = []
     if probes_n == 0:
         inconclusive.append("no trait probe ran")
